@@ -17,8 +17,9 @@ EXPLANATION = (
     "when the exhaustive program matches, File only when the non-exhaustive one matches, None otherwise; (candidate) the "
     "text matched is the entry's root-relative path; (apply) Not::feed applies the verdict to filtrate and residue alike, "
     "once, cancelling its own input (shared with C13 / C16); (collapse) into_non_trivial / into_alternatives only collapse "
-    "branches without semantic effect and keep every alternative.")
-RULES = "C03.sound (= C09.sound), C03.partition (TABLE+PROV), C03.verdict (TABLE), C03.candidate (PROV), C03.apply (= C16.apply for Not), C03.collapse (TABLE)"
+    "branches without semantic effect and keep every alternative.  "
+    "Also run here: C09.text (nested alternations) and C13.skip / C13.isdir (discarding an entry that is not a directory walkdir descended into - a link read as a file that matches an exhaustive negation - must not leave its parent).")
+RULES = "C03.sound (= C09.sound), C03.partition (TABLE+PROV), C03.verdict (TABLE), C03.candidate (PROV), C03.apply (= C16.apply for Not), C03.collapse (TABLE), C09.text, C13.skip, C13.isdir"
 
 FAP = "walk::glob::FilterAnyProgram"
 WHEN = "query::When"
